@@ -98,6 +98,7 @@ class Translator:
         self.aliases = aliases
         self.mutated_caller = []   # (function, array) pairs
         self.nbuf = 0
+        self.integer_guards = []   # function:array pairs cast to float before the shear halving
         self.index_lists = {}      # name -> list, for the evidence / side lemmas
 
     # ------------------------------------------------------------ helpers
@@ -565,6 +566,19 @@ class Translator:
                 changed = None
                 stale_before = {n2 for n2, v2 in env.items() if v2.stale}
                 for s2 in st.body:
+                    # dtype guard: `if not np.issubdtype(X.dtype, np.inexact): X = X.astype(float)`
+                    # (no effect on the values; the result is a fresh float array)
+                    if isinstance(s2, ast.If) and not s2.orelse and len(s2.body) == 1 and \
+                            isinstance(s2.body[0], ast.Assign) and \
+                            isinstance(s2.body[0].targets[0], ast.Name):
+                        x_ = s2.body[0].targets[0].id
+                        want = ast.parse(f'if not np.issubdtype({x_}.dtype, np.inexact):\n'
+                                         f'    {x_} = {x_}.astype(float)').body[0]
+                        if ast.dump(s2) == ast.dump(want) and x_ in env2 and env2[x_].kind in 'vm':
+                            v_ = env2[x_]
+                            env2[x_] = Val(v_.text, v_.kind, v_.origin, buf=v_.buf)
+                            self.integer_guards.append(f'{self.cur}:{x_}')
+                            continue
                     if not (isinstance(s2, ast.Assign) and len(s2.targets) == 1 and
                             isinstance(s2.targets[0], ast.Subscript)):
                         self.err(s2, 'only in-place updates are allowed under `if flag`')
@@ -860,6 +874,10 @@ def emit(tr):
     out.append('   positionally to self.elements.ids *)')
     for n in METHODS:
         out.append(f'Definition {n}_bound_by_id : bool := {str(binding_by_id(tr.fn[n])).lower()}.')
+    out.append('')
+    out.append('(* arrays that are cast to a floating dtype before `/ 2` is assigned back into them')
+    out.append('   (integer input arrays would otherwise be truncated; dtype is outside the real model) *)')
+    out.append(f'Definition integer_inputs_cast_before_halving : list string := {sl(tr.integer_guards)}.')
     out.append('')
     out.append('(* conservative alias summary: caller-owned arrays (function:parameter, or')
     out.append('   method:mesh attribute) that some statement may write in place *)')
